@@ -12,3 +12,15 @@ def precision(bits):
         yield
     finally:
         config.precision = old
+
+
+@contextlib.contextmanager
+def fft_backend(module):
+    """Swap prysm's FFT backend (prysm.mathops.fft._srcmodule, the documented mechanism) and restore it."""
+    from prysm import mathops
+    old = mathops.fft._srcmodule
+    mathops.fft._srcmodule = module
+    try:
+        yield
+    finally:
+        mathops.fft._srcmodule = old
